@@ -1,4 +1,21 @@
 // @append-to: src/redis/resp.rs
+// Kani harnesses for RespParser (C15 bounded stand-ins): totality / no over-read / prefix-stability.
+// Appended to a scratch copy of resp.rs by /verif/engine/kani_run.py (child module: sees private fns).
+//
+// INPUT SPACE: byte strings over the 18-symbol alphabet `+ - : $ * \r \n 0-9 a`.  Rationale (not proved): every
+// other byte value is handled like `a` by the decoder - it is neither a type byte, nor CR/LF, nor a digit/sign
+// (bytes >= 0x80 become U+FFFD in from_utf8_lossy, which parse::<i64> rejects exactly like `a`).
+//
+// SCOPE (measured): only the four non-recursive frame types.  `RespParser::parse` with arrays does not finish
+// even for length 3-4 (the drop glue of the recursive value type inside parse_array is unwound to the bound at
+// every level); arrays are covered, unboundedly, by the Verus unit resp_codec (totality, no over-read) only.
+// The encoder round trip does not finish either (format! must stay real there).
+//
+// STUBS (all stated):
+//  * String::from_utf8_lossy -> Cow::Borrowed of the same bytes (exactly its documented result on valid UTF-8;
+//    the alphabet is ASCII);
+//  * alloc::fmt::format, core::fmt::write, Formatter::pad -> produce nothing: the TEXT of error messages built
+//    with format!/to_string() is empty.  Only Ok/Err is observed.
 #[cfg(kani)]
 mod verif_kani_resp_parser {
     use super::*;
@@ -84,10 +101,25 @@ mod verif_kani_resp_parser {
         }
     }
 
-    // @harness: h_parser_scalars_n6
-    // @bound: probe
+    // @harness: h_parser_scalars_n5
+    // @bound: all byte strings of length 1..=5 over the 18-symbol alphabet; scalar frame types (+ - : $) via the real parse_* fns; unwind 7
     // @tier: quick
     // @complete: false
+    // @props: C15
+    #[kani::proof]
+    #[kani::unwind(7)]
+    #[kani::stub(alloc::string::String::from_utf8_lossy, lossy_ascii_stub)]
+    #[kani::stub(alloc::fmt::format, fmt_format_stub)]
+    #[kani::stub(core::fmt::write, fmt_write_stub)]
+    #[kani::stub(core::fmt::Formatter::pad, fmt_pad_stub)]
+    fn h_parser_scalars_n5() {
+        check_scalars::<5>();
+    }
+    // @harness: h_parser_scalars_n6
+    // @bound: all byte strings of length 1..=6 over the 18-symbol alphabet; scalar frame types (+ - : $) via the real parse_* fns; unwind 8
+    // @tier: thorough
+    // @complete: false
+    // @props: C15
     #[kani::proof]
     #[kani::unwind(8)]
     #[kani::stub(alloc::string::String::from_utf8_lossy, lossy_ascii_stub)]
@@ -97,32 +129,18 @@ mod verif_kani_resp_parser {
     fn h_parser_scalars_n6() {
         check_scalars::<6>();
     }
-
-    // the real entry point, arrays included: no panic, no over-read, for every length 0..=N
-    fn check_full<const N: usize>() {
-        let buf = any_input::<N>();
-        let mut k = 0;
-        while k <= N {
-            let r = RespParser::parse(&buf[..k]);
-            if let Ok((_, n)) = &r {
-                assert!(0 < *n && *n <= k);
-            }
-            core::mem::forget(r);
-            k += 1;
-        }
-    }
-
-    // @harness: h_parser_full_n4
-    // @bound: probe
-    // @tier: quick
+    // @harness: h_parser_scalars_n8
+    // @bound: all byte strings of length 1..=8 over the 18-symbol alphabet; scalar frame types (+ - : $) via the real parse_* fns; unwind 10
+    // @tier: thorough
     // @complete: false
+    // @props: C15
     #[kani::proof]
-    #[kani::unwind(6)]
+    #[kani::unwind(10)]
     #[kani::stub(alloc::string::String::from_utf8_lossy, lossy_ascii_stub)]
     #[kani::stub(alloc::fmt::format, fmt_format_stub)]
     #[kani::stub(core::fmt::write, fmt_write_stub)]
     #[kani::stub(core::fmt::Formatter::pad, fmt_pad_stub)]
-    fn h_parser_full_n4() {
-        check_full::<4>();
+    fn h_parser_scalars_n8() {
+        check_scalars::<8>();
     }
 }
